@@ -191,7 +191,7 @@ func judgeAlone(c Case, limit time.Duration) (r childResult, died bool, tail str
 	return r, true, strings.ReplaceAll(tail, "\n", " | "), nil
 }
 
-func caseLimit() time.Duration { return time.Duration(kit.Scale(10, 20)) * time.Second }
+func caseLimit() time.Duration { return 20 * time.Second }
 
 func isolating() bool {
 	return os.Getenv(childEnv) == "" && os.Getenv(noIsolateEnv) == ""
